@@ -30,7 +30,9 @@ ALSO = {"C19-2": ["C15"], "C07-3": ["C15"], "C09-3": ["C16"],
         # round 4
         "C20-7": ["C15"],
         # round 5
-        "C01-10": ["C08"], "C14-10": ["C16"], "C02-10": ["C16"]}
+        "C01-10": ["C08"], "C14-10": ["C16"], "C02-10": ["C16"],
+        # round 7
+        "C05-14": ["C09"]}
 
 
 def run(check, patch, tier, seed="1"):
